@@ -35,6 +35,8 @@ func register(id string, f CheckFunc) {
 		if ownsErrTolerance(id) {
 			r.Rule("SHARED-ELEMENT", "no pointer appended inside a loop of the owned call trees is one object created before the loop and refilled in every iteration", 1)
 			checkNoSharedElementInLoop(p, r, "SHARED-ELEMENT")
+			r.Rule("SENTINEL-EXACT", "no test of a result whose `not found` value is -1 (Find, HashHeight, …; computed from the tree) puts the valid answer 0 on the `not found` side", 1)
+			checkSentinelExact(p, r, "SENTINEL-EXACT")
 			r.Rule("COPY-INTO-EMPTY", "no copy() in the owned call trees has a destination made with length 0", 1)
 			checkCopyIntoEmpty(p, r, "COPY-INTO-EMPTY")
 		}
